@@ -27,6 +27,7 @@ type RunDef struct {
 	Preempt       int
 	Reach         []string // labels that must be reached (vacuity guard)
 	FuelViolation bool
+	Pkg           string // harness package of this run (default: the check's Pkg)
 	NativeRepeat  int    // native replay attempts (violations that depend on Go's randomised map iteration)
 	NativeTwin    string // for scheduler runs: harness function run natively to confirm known findings (expects a Go panic)
 	Note          string
@@ -143,8 +144,21 @@ func cmdCheck(args []string) int {
 		}
 	}
 	t0 := time.Now()
-	l, err := engine.Load(verifDir(), ck.Pkg)
-	if err != nil {
+	loaded := map[string]*engine.Loaded{}
+	loadPkg := func(pkg string) (*engine.Loaded, error) {
+		if pkg == "" {
+			pkg = ck.Pkg
+		}
+		if l, ok := loaded[pkg]; ok {
+			return l, nil
+		}
+		l, err := engine.Load(verifDir(), pkg)
+		if err == nil {
+			loaded[pkg] = l
+		}
+		return l, err
+	}
+	if _, err := loadPkg(ck.Pkg); err != nil {
 		fmt.Fprintln(os.Stderr, "load:", err)
 		return 2
 	}
@@ -172,6 +186,11 @@ func cmdCheck(args []string) int {
 		}
 		t1 := time.Now()
 		spec := engine.RunSpec{Fn: rd.Fn, Setup: rd.Setup, Params: rd.Params, Fuel: rd.Fuel, Workers: *workers, Sched: rd.Sched, Preempt: rd.Preempt, Timeout: 100 * time.Minute, FuelViolation: rd.FuelViolation}
+		l, err := loadPkg(rd.Pkg)
+		if err != nil {
+			fmt.Fprintln(os.Stderr, "load:", err)
+			return 2
+		}
 		exp, err := l.Run(spec, *solver, 60000)
 		if err != nil {
 			fmt.Fprintf(os.Stderr, "run %s: %v\n", rd.Fn, err)
@@ -215,7 +234,29 @@ func cmdCheck(args []string) int {
 	// ---- violations: native replay, known-finding classification
 	replayDir := filepath.Join(verifDir(), "replay")
 	os.MkdirAll(replayDir, 0o755)
-	var nativeBin string
+	nativeBins := map[string]string{}
+	nativeFor := func(pkg string) (string, error) {
+		if pkg == "" {
+			pkg = ck.Pkg
+		}
+		if b, ok := nativeBins[pkg]; ok {
+			return b, nil
+		}
+		l, err := loadPkg(pkg)
+		if err != nil {
+			return "", err
+		}
+		b, err := buildNative(pkg, l)
+		if err == nil {
+			nativeBins[pkg] = b
+		}
+		return b, err
+	}
+	defer func() {
+		for _, b := range nativeBins {
+			os.RemoveAll(filepath.Dir(b))
+		}
+	}()
 	nativeRuns, reproduced, spurious := 0, 0, 0
 	var violLines []string
 	var knownLines []string
@@ -224,7 +265,11 @@ func cmdCheck(args []string) int {
 	fuelReproduced := 0
 	for _, o := range outs {
 		for _, v := range o.exp.Violations {
-			rec := replayRec{Harness: ck.Pkg + "." + o.def.Fn, Pkg: ck.Pkg, Fn: o.def.Fn, Setup: o.def.Setup, Property: id, Label: v.Label, Kind: v.Kind,
+			rpkg := ck.Pkg
+			if o.def.Pkg != "" {
+				rpkg = o.def.Pkg
+			}
+			rec := replayRec{Harness: rpkg + "." + o.def.Fn, Pkg: rpkg, Fn: o.def.Fn, Setup: o.def.Setup, Property: id, Label: v.Label, Kind: v.Kind,
 				Msg: v.Msg, Site: v.Site, Known: v.Known, Inputs: v.Inputs, Params: o.def.Params, Observed: v.Observed}
 			if v.Known != "" {
 				if knownWitnessDone[v.Known] {
@@ -245,13 +290,10 @@ func cmdCheck(args []string) int {
 				continue
 			}
 			if !*noReplay && o.def.Sched && o.def.NativeTwin != "" && v.Known != "" {
-				if nativeBin == "" {
-					nativeBin, err = buildNative(ck.Pkg, l)
-					if err != nil {
-						fmt.Fprintln(os.Stderr, "native replay build failed:", err)
-						return 2
-					}
-					defer os.RemoveAll(filepath.Dir(nativeBin))
+				nativeBin, err := nativeFor(o.def.Pkg)
+				if err != nil {
+					fmt.Fprintln(os.Stderr, "native replay build failed:", err)
+					return 2
 				}
 				nativeRuns++
 				twin := rec
@@ -264,13 +306,10 @@ func cmdCheck(args []string) int {
 				}
 			}
 			if !*noReplay && !o.def.Sched {
-				if nativeBin == "" {
-					nativeBin, err = buildNative(ck.Pkg, l)
-					if err != nil {
-						fmt.Fprintln(os.Stderr, "native replay build failed:", err)
-						return 2
-					}
-					defer os.RemoveAll(filepath.Dir(nativeBin))
+				nativeBin, err := nativeFor(o.def.Pkg)
+				if err != nil {
+					fmt.Fprintln(os.Stderr, "native replay build failed:", err)
+					return 2
 				}
 				nativeRuns++
 				okRep, out := runNative(nativeBin, path, rec)
